@@ -212,6 +212,7 @@ func init() {
 			ln := x.c64(uint64(len(terms)))
 			return Slice{Arr: arr, Off: x.c64(0), Len: ln, Cap: ln}
 		},
+		"vfetchPush": func(x *X, fn *ssa.Function, a []Value) Value { x.ghostAppend("fetchq", a[0]); return nil },
 		"vreadvPush": func(x *X, fn *ssa.Function, a []Value) Value { x.ghostAppend("readvq", a[0]); return nil },
 		"vrandPush": func(x *X, fn *ssa.Function, a []Value) Value { x.ghostAppend("randq", a[0]); return nil },
 		"vparam": func(x *X, fn *ssa.Function, a []Value) Value {
@@ -255,6 +256,14 @@ func init() {
 			}
 			w.V = x.B.Const(1, 32)
 			return nil
+		},
+		"(*sync.RWMutex).TryLock": func(x *X, fn *ssa.Function, a []Value) Value {
+			w, r := x.rwCells(a[0])
+			if x.branch(x.B.And(x.B.Eq(w.V.(*T), x.B.Const(0, 32)), x.B.Eq(r.V.(*T), x.B.Const(0, 32)))) {
+				w.V = x.B.Const(1, 32)
+				return x.B.True()
+			}
+			return x.B.False()
 		},
 		"(*sync.RWMutex).Unlock": func(x *X, fn *ssa.Function, a []Value) Value {
 			w, _ := x.rwCells(a[0])
@@ -459,6 +468,16 @@ func init() {
 		ModulePath + "/protocol/link/rawfile.NonBlockingWrite2": func(x *X, fn *ssa.Function, a []Value) Value {
 			x.ghostAppend("fdwrite", Tuple{a[1], a[2]})
 			return Pointer{}
+		},
+		"(*" + ModulePath + "/pkg/sleep.Sleeper).Fetch": func(x *X, fn *ssa.Function, a []Value) Value {
+			// the goroutine waits for events: scripted wake-ups (vfetchPush) are returned in order,
+			// after that the wait is the end of the explored step
+			q, _ := x.ghost["fetchq"].([]Value)
+			if len(q) == 0 {
+				panic(pathEnd{"blocked", "Sleeper.Fetch: waiting for events"})
+			}
+			x.ghost["fetchq"] = q[1:]
+			return Tuple{q[0], x.B.True()}
 		},
 		"internal/abi.NoEscape": func(x *X, fn *ssa.Function, a []Value) Value { return a[0] },
 		"(*" + ModulePath + "/protocol.StatCounter).Increment":   nop,
